@@ -49,6 +49,53 @@ def lut_case(u, rep, parts, ddtype, timeout):
             val = solve.mval(res['model'], vi); case = dict(kind='lut', parts=parts, ddtype=ddtype, value=val)
             rep.violation(nm, fn, 'value %s maps to the wrong class' % val, case, str(res['model'])[:300], *native(case))
 
+def lut_invariant(u, rep, timeout):
+    """_build_lut for EVERY class list (length K and values symbolic, 0 <= value < 2^17): loop invariant at a generic value v
+         lut[v] == -1  <=>  v is not among the first k classes;      lut[v] != -1  =>  0 <= lut[v] < k and partitions[lut[v]] == v
+    (DECL(k, v) is defined recursively: DECL(0, v) = false, DECL(k+1, v) = DECL(k, v) or partitions[k] == v)"""
+    from pyvc import loops
+    fn = KN.PM + '::_build_lut'; key = fn
+    def body():
+        K = core.sym_int('K', 1)
+        PV = z3.Function('PV', z3.IntSort(), z3.IntSort())
+        parts = symnp.ndarray.fresh((K,), lambda i: SBV(z3.Int2BV(PV(zi(i[0])), 32), 'int32', PV(zi(i[0]))), 'int32', name='PV')
+        DECL = z3.Function('DECL', z3.IntSort(), z3.IntSort(), z3.BoolSort())
+        gv = z3.Int('gv!'); gr = [gv >= 0, gv < 2 ** 17]
+        st = {}
+        def inv(lutv, k): return z3.And((lutv == -1) == z3.Not(DECL(k, gv)), z3.Implies(lutv != -1, z3.And(lutv >= 0, lutv < k, PV(lutv) == gv)))
+        def cur():
+            e = st['lut'].at(SInt(gv)); return e.ival if getattr(e, 'ival', None) is not None else z3.BV2Int(e.z, is_signed=True)
+        def establish():
+            # the table is the local `lut` of the frame that is executing the loop
+            import inspect
+            fr = [f for f in inspect.stack() if f.function == '_build_lut']
+            st['lut'] = fr[0].frame.f_locals['lut']
+            loops.oblige('_build_lut: invariant on entry (every entry -1, nothing declared)', 'invariant-init', z3.Implies(z3.And(*(gr + [z3.Not(DECL(0, gv))])), z3.And(cur() == -1, inv(cur(), z3.IntVal(0)))))
+        def havoc(k):
+            kz = zi(k); LUT = z3.Function('LUT!%d' % next(loops._ctr), z3.IntSort(), z3.IntSort())
+            st['lut'].st.set(lambda J: SBV(z3.Int2BV(LUT(zi(J[0])), 32), 'int32', LUT(zi(J[0]))))
+            core.assume(z3.Implies(z3.And(*gr), inv(LUT(gv), kz)))
+            if not (isinstance(k, SInt) and k.z.eq(K.z)): core.assume(z3.And(PV(kz) >= 0, PV(kz) < 2 ** 17))      # precondition: class values index the 2^17-entry table
+            st['k'] = kz
+        def preserve(k):
+            kz = zi(k)
+            loops.oblige('_build_lut: invariant preserved (entry of class k set to k)', 'invariant-step', z3.Implies(z3.And(*(gr + [DECL(kz + 1, gv) == z3.Or(DECL(kz, gv), PV(kz) == gv)])), inv(cur(), kz + 1)))
+        lc = loops.LoopCut('lut', lambda it: K, lambda it, k: k, establish, havoc, preserve)
+        L.set_task(loops={key + '#0': lc})
+        try: out = L.unwrap(u.part._build_lut)(parts)
+        finally: L.set_task(loops={})
+        e = out.at(SInt(gv)); ov = e.ival if getattr(e, 'ival', None) is not None else z3.BV2Int(e.z, is_signed=True)
+        loops.oblige('_build_lut: result[v] == -1 iff v undeclared, else the index of a class whose value is v (every class list)', 'post', z3.Implies(z3.And(*gr), z3.And(out.dtype == _rnp.dtype('int32'), inv(ov, K.z))))
+        return lc.entered
+    for p, outc, exc in core.explore(body):
+        if exc is not None:
+            rep.obligation('_build_lut loop invariant', fn, 'post', dict(result='sat', backend='exec', secs=0), sample=repr(exc)); rep.violation('_build_lut loop invariant', fn, 'raises %r' % (exc,), dict(kind='lut', parts=[0, 1, 2], ddtype='uint8'), None, *native(dict(kind='lut', parts=[0, 1, 2], ddtype='uint8'))); continue
+        if outc != 1: rep.errors.append('_build_lut loop contract entered %s times' % outc)
+        for ob in p.obligations:
+            res = solve.discharge(ob['pc'], ob['goal'], timeout_ms=timeout)
+            rep.obligation(ob['name'], fn, ob['kind'], res, sample='class list of symbolic length with symbolic values, generic table entry')
+            if res['result'] == 'sat': rep.violation(ob['name'], fn, ob['name'], dict(kind='lut', parts=[3, 1, 2, 0], ddtype='uint8'), str(res['model'])[:400], *native(dict(kind='lut', parts=[3, 1, 2, 0], ddtype='uint8')))
+
 def lut_history(u, rep, timeout):
     """tables of different objects do not influence each other: the same classes listed in another order, built afterwards in the same process"""
     fn = KN.PM + '::_define_lut_func'
@@ -143,7 +190,7 @@ def main():
             if max(parts) > 255 and dt in ('uint8', 'int8'): continue
             units.append(('lut', parts, dt))
     for dt in ('uint8', 'uint16', 'int16'): units.append(('auto', dt))
-    units.append(('luth',))
+    units.append(('luth',)); units.append(('lutinv',))
     for parts in ([0, 1, 2, 3], [3, 1, 2, 0], [7, 200, 5]): units.append(('tdpa', parts))
     for which in (1, 2): units += [('part', which, 2, 1, 1, 3, 'float32', 'float32'), ('tpl', which, 2, 1, 3, 'float32', 'float32')]
     units.append(('mia', 2, 1, 1, 2, 2, 'float32'))
@@ -156,6 +203,7 @@ def main():
         if kind == 'lut': lut_case(u, sub, args[0], args[1], timeout)
         elif kind == 'auto': auto_set(u, sub, args[0], timeout)
         elif kind == 'luth': lut_history(u, sub, timeout)
+        elif kind == 'lutinv': lut_invariant(u, sub, timeout)
         elif kind == 'tdpa': template_dpa_index(u, sub, args[0], timeout)
         elif kind == 'part': KN.report_kernel(sub, KN.partitioned_kernel(u, *args), 'partitioned kernel %d (class by index, -1 ignored)' % args[0], KN.PM + '::PartitionedDistinguisherMixin._accumulate_core_%d' % args[0], timeout, native, dict(kind='foreign', dist='SNR'), check_flows=False)
         elif kind == 'tpl': KN.report_kernel(sub, KN.template_kernel(u, *args), 'template kernel %d (class by index, -1 ignored)' % args[0], KN.TM + '::_TemplateBuildDistinguisherMixin._accumulate_core_%d' % args[0], timeout, native, dict(kind='foreign', dist='TemplateBuild'), check_flows=False)
